@@ -293,6 +293,16 @@ func (w *world) decide(rq *reqSpec) *decision {
 				}
 			}
 		}
+		if carried == nil && why == "sni-foreign" {
+			// Near miss: the name starts with a device id that is not a label
+			// of its own, or ends with the characters of a device domain.
+			low := strings.ToLower(rq.SNI)
+			for _, d := range w.Devs {
+				if strings.HasPrefix(low, string(d.ID)) {
+					carried, why = d, "sni-near-miss"
+				}
+			}
+		}
 		switch {
 		case !identifying:
 			invalid(notID+"-sni", carried)
